@@ -27,6 +27,14 @@ func jobsFor(prop, tier string) []*Job {
 			add(&Job{Name: fmt.Sprintf("O1-step/n=%d", n), Pkg: "roundrobin", Harness: "VerifC01Step", Params: p("n", n), Inductive: true, TimeoutS: 120, Unwind: 2*n + 3,
 				Bounds: fmt.Sprintf("one nextServer from an arbitrary iterator state: n=%d, weights symbolic in [0,2^31) not all zero, index in [-1,n), 0<=currentWeight<=max, step g symbolic >= 1 (stub of weightGcd); loop needs at most 2n+1 iterations (unwinding bound)", n)})
 		}
+		gm := 32
+		if thorough {
+			gm = 96
+		}
+		for n := 2; n <= nmax; n++ {
+			add(&Job{Name: fmt.Sprintf("O3-gcd/n=%d,M=%d", n, gm), Pkg: "roundrobin", Harness: "VerifC01Gcd", Params: p("n", n, "M", gm), Unwind: gm + 4, TimeoutS: 120, IncKind: "z3", Solvers: []string{"z3", "cvc5"},
+				Bounds: fmt.Sprintf("real weightGcd/gcd on n=%d servers, weights symbolic in [0,%d] not all zero: result divides every weight and is a multiple of every common divisor in [2,%d]; loops unwound to termination (unwinding bound M+4 never reached)", n, gm, gm)})
+		}
 		for n := 1; n <= nmax; n++ {
 			parts := []int{-1}
 			if n >= 3 {
@@ -168,11 +176,19 @@ func jobsFor(prop, tier string) []*Job {
 		}
 		for kind := 0; kind < 2; kind++ {
 			for op0 := 0; op0 < 3; op0++ {
-				add(&Job{Name: fmt.Sprintf("O2-history/kind=%d,pre=2,k=%d,op0=%d", kind, k-2, op0), Pkg: "roundrobin", Harness: "VerifC02History", Params: p("kind", kind, "k", k-2, "op0", op0, "pre", 2),
+				add(&Job{Name: fmt.Sprintf("O2-history/kind=%d,pre=2,k=%d,op0=%d", kind, k-2, op0), Pkg: "roundrobin", Harness: "VerifC02History", Params: p("kind", kind, "k", k-2, "op0", op0, "pre", 2, "mode", 0),
 					Bounds: fmt.Sprintf("as the plain history job but starting from two members with symbolic weights 0..2 (zeros produced by re-weighting), then %d administration calls", k-2)})
-				add(&Job{Name: fmt.Sprintf("O2-history/kind=%d,k=%d,op0=%d", kind, k, op0), Pkg: "roundrobin", Harness: "VerifC02History", Params: p("kind", kind, "k", k, "op0", op0, "pre", 0),
+				add(&Job{Name: fmt.Sprintf("O2-history/kind=%d,k=%d,op0=%d", kind, k, op0), Pkg: "roundrobin", Harness: "VerifC02History", Params: p("kind", kind, "k", k, "op0", op0, "pre", 0, "mode", 0),
 					Bounds: fmt.Sprintf("%d administration calls (upsert with weight 0..2 / upsert without option / remove) on a universe of 4 URLs with 3 identities, checked after every call; then one rotation via NextServer or ServeHTTP with a URL-rewriting downstream handler; kind 0 = RoundRobin, 1 = through Rebalancer", k)})
 			}
+		}
+		for kind := 0; kind < 2; kind++ {
+			add(&Job{Name: fmt.Sprintf("O3-failed-remove-mid-rotation/kind=%d,pre=2,k=%d", kind, k-2), Pkg: "roundrobin", Harness: "VerifC02History", Params: p("kind", kind, "k", k-2, "op0", 2, "pre", 2, "mode", 1),
+				Bounds: fmt.Sprintf("two members with symbolic weights 0..2, a remove (op0) and %d further administration calls, then one rotation with a failing remove of an unknown server after the 1st or 2nd selection (symbolic): the rotation still reaches every positive-weight member", k-3)})
+		}
+		for _, c := range [][2]int{{2, k - 2}, {0, k}} {
+			add(&Job{Name: fmt.Sprintf("O4-meter-failure/pre=%d,k=%d", c[0], c[1]), Pkg: "roundrobin", Harness: "VerifC02History", Params: p("kind", 1, "k", c[1], "op0", 0, "pre", c[0], "mode", 2),
+				Bounds: fmt.Sprintf("through the rebalancer with a meter factory that fails at one symbolic step of %d administration calls (first call an upsert): a failed add reports an error and leaves the pool as it was", c[1])})
 		}
 	case "C10":
 		add(&Job{Name: "O3-converge/a=2,wmax=4", Pkg: "roundrobin", Harness: "VerifC10Converge", Params: p("a", 2, "wmax", 4), TimeoutS: 120,
